@@ -6,6 +6,10 @@ from vf import pool_harness as H
 
 
 class NoCond(object):
+    """HostConnectionPool._conn_available_condition: waiting = the borrower is parked; it resumes after whatever the history
+    schedules at that point (an instrumented point like a lock acquisition)"""
+    h = None
+
     def __enter__(self):
         return self
 
@@ -13,6 +17,10 @@ class NoCond(object):
         return False
 
     def wait(self, timeout=None):
+        h = self.h
+        if h is not None and h.armed and h.depth == 0:
+            h.hook('wait')
+            h.woke_shut = bool(h.pool.is_shutdown)
         return False
 
     def notify(self, n=1):
@@ -59,6 +67,7 @@ class Cluster2(object):
             h.hook('factory')
         c = h.ConnClass(protocol_version=2, on_orphaned_stream_released=kw.get('on_orphaned_stream_released'))
         c.cid = len(h.conns)
+        c.opened_after_shutdown = bool(getattr(h, 'pool', None) and h.pool.is_shutdown)
         h.conns.append(c)
         return c
 
@@ -107,6 +116,9 @@ class LegacyHarness(object):
         self.pool = P.HostConnectionPool(self.host, HostDistance.LOCAL, self.session)
         self.pool._lock = H.HookLock(self, 'pool')
         self.pool._conn_available_condition = NoCond()
+        self.pool._conn_available_condition.h = self
+        self.woke_shut = False
+        self.sd_lines = first_loop_lines(P.HostConnectionPool.shutdown)
         self.pool._trash = TrashSet()
         self.pool._trash.h = self
         self.max_request_id = self.conns[0].max_request_id if self.conns else min(max_in_flight, 127)
@@ -120,6 +132,11 @@ class LegacyHarness(object):
 
     def window_close(self, conn, caller):
         pass
+
+    def shutdown_close(self, conn, frame):
+        """close() called by shutdown(): an instrumented point when it is the loop over the connection list"""
+        if self.armed and self.depth == 0 and frame.f_lineno in self.sd_lines:
+            self.hook('sdclose')        # the connection is closed; the loop has not advanced yet (callbacks of close() run here)
 
     def window_orphan_removal(self, conn):
         pass
@@ -219,8 +236,13 @@ class LegacyHarness(object):
         try:
             if kind == 'borrow':
                 was_shutdown = pool.is_shutdown
+                outer_woke, self.woke_shut = self.woke_shut, False
                 try:
                     conn, rid = pool.borrow_connection(timeout=mop[1])
+                    if self.woke_shut:
+                        self.problem('HostConnectionPool._wait_for_conn.stream-handed-out-after-shutdown',
+                                     'a borrower parked in _wait_for_conn resumed after shutdown() and was handed stream %d on connection %d '
+                                     '(closed: %s) instead of failing' % (rid, conn.cid, conn.is_closed), 'C12v2_woken_borrower_fails')
                     self.streams.append((conn.cid, rid))
                     res = [200, conn.cid]
                     if was_shutdown:
@@ -234,6 +256,8 @@ class LegacyHarness(object):
                     res = 201
                 except P.NoConnectionsAvailable:
                     res = 202
+                finally:
+                    self.woke_shut = outer_woke
             elif kind in ('return', 'orphan'):
                 c = mop[1]
                 st = [s for s in self.streams if s[0] == c]
@@ -295,10 +319,23 @@ class LegacyHarness(object):
                 key = 'HostConnectionPool.connection-left-open'
                 if self.notes:
                     key = 'HostConnectionPool._maybe_trash_connection.trash-recorded-outside-lock'
-                elif c in self.pool._connections:
+                elif c.opened_after_shutdown:
                     key = 'HostConnectionPool._add_conn_if_under_max.opened-across-shutdown'
+                elif c in self.pool._connections:
+                    key = 'HostConnectionPool.shutdown.connection-skipped'
                 out.append((key, c.cid))
         return out
+
+
+def first_loop_lines(fn):
+    """source lines of the body of the first `for` loop of HostConnectionPool.shutdown (the one over self._connections)"""
+    import ast, inspect, textwrap
+    lines, start = inspect.getsourcelines(fn)
+    tree = ast.parse(textwrap.dedent(''.join(lines)))
+    for n in ast.walk(tree):
+        if isinstance(n, ast.For) and '_connections' in ast.unparse(n.iter):
+            return set(range(start + n.lineno - 1, start + n.end_lineno))
+    return set()
 
 
 def enabled_mops(h, rng):
